@@ -9,6 +9,7 @@ import Ts.Model.Psi
 import Ts.Model.Tables
 import Ts.Model.Demux
 import Ts.Model.App
+import Ts.Model.AppQ
 import Ts.Model.Values
 import Ts.Gen.Consts
 /-!
@@ -337,6 +338,31 @@ def opCuts (cfg : App.Cfg) (stream : Bytes) (masks : String) : String :=
   ",".intercalate ((masks.splitOn ",").map fun m =>
     if opDemux cfg (splitByMask stream m.toList) == whole then "same" else "diff")
 
+/-! ### `construct` that queues changes (DemuxQ) -/
+
+/-- `c<pid>:op,op…` entries of a configuration string: the construct script -/
+def parseCScript (s : String) : List (Nat × List App.ScriptOp) :=
+  (s.splitOn ";").filterMap fun e =>
+    match e.splitOn ":" with
+    | [k, ops] => (match k.toList with
+      | 'c' :: r => (match (String.ofList r).toNat? with
+        | some pid => some (pid, (ops.splitOn ",").filterMap parseScriptOp)
+        | none => none)
+      | _ => none)
+    | _ => none
+
+def opDemuxQ (cfg : App.Cfg) (cs : List (Nat × List App.ScriptOp)) (pushes : List Bytes) : String :=
+  match AppQ.runAppQ cfg cs pushes with
+  | .panic _ => "PANIC"
+  | .ok (_, c, q) =>
+    let evs := c.trace.reverse.map fEv
+    " ".intercalate (evs ++ [s!"pending={if q.isEmpty then 0 else 1}"])
+
+def opCutsQ (cfg : App.Cfg) (cs : List (Nat × List App.ScriptOp)) (stream : Bytes) (masks : String) : String :=
+  let whole := opDemuxQ cfg cs [stream]
+  ",".intercalate ((masks.splitOn ",").map fun m =>
+    if opDemuxQ cfg cs (splitByMask stream m.toList) == whole then "same" else "diff")
+
 /-! ### dispatcher -/
 def step (line : String) : String :=
   match line.trimAscii.toString.splitOn " " with
@@ -388,6 +414,12 @@ def step (line : String) : String :=
       | none => "bad-op")
   | "demux" :: c :: pushes => (match parseCfg c with
       | some cfg => opDemux cfg (pushes.map bytesOfHex)
+      | none => "bad-op")
+  | "demuxq" :: c :: pushes => (match parseCfg c with
+      | some cfg => opDemuxQ cfg (parseCScript c) (pushes.map bytesOfHex)
+      | none => "bad-op")
+  | ["cutsq", c, st, masks] => (match parseCfg c with
+      | some cfg => opCutsQ cfg (parseCScript c) (bytesOfHex st) masks
       | none => "bad-op")
   | _ => "bad-op"
 
